@@ -308,19 +308,26 @@ func checkStringOrElementFunction(stringOrElement string, token Token) (out pr.C
 }
 
 // HasVar returns true if [token] is a var(...),
-// or is a function with any var()
+// or is a function, a () block or a [] block with any var()
 func HasVar(token Token) bool {
-	fn, ok := token.(pa.FunctionBlock)
-	if !ok {
+	var args []Token
+	switch token := token.(type) {
+	case pa.FunctionBlock:
+		if utils.AsciiLower(token.Name) == "var" {
+			name, _ := ParseVar(token)
+			return name != ""
+		}
+		args = token.Arguments
+	case pa.ParenthesesBlock:
+		args = token.Arguments
+	case pa.SquareBracketsBlock:
+		args = token.Arguments
+	default:
 		return false
-	}
-	if utils.AsciiLower(fn.Name) == "var" {
-		name, _ := ParseVar(fn)
-		return name != ""
 	}
 
 	// recurse
-	for _, arg := range fn.Arguments {
+	for _, arg := range args {
 		if HasVar(arg) {
 			return true
 		}
